@@ -276,23 +276,25 @@ rule!(array -> Value, {
     map(delimited(char('['), cut(body),ws(char(']'))), Into::into)
 });
 
+// "( … )" is a grouping when it holds exactly one expression and no trailing comma,
+// and a tuple otherwise. Parsed in one pass so that nesting does not multiply the work.
 rule!(tuple -> Value, {
     let body = map_opt(
-        pair(many0(terminated(
-            op_0,
-            ws(char(','))
-        )),opt(op_0)),
-        |(mut ary,last)|{
-            if ary.is_empty() && last.is_some() {
+        pair(
+            separated_list0(ws(char(',')), op_0),
+            opt(ws(char(',')))
+        ),
+        |(mut ary,trailing)|{
+            if ary.is_empty() && trailing.is_some() {
                 return None
             }
-            if let Some(v) = last {
-                ary.push(v);
+            if ary.len() == 1 && trailing.is_none() {
+                return Some(ary.remove(0))
             }
-            Some(ary)
+            Some(Value::Tuple(Arc::new(ary)))
         }
     );
-    map(map(delimited(char('('), body,ws(char(')'))), Arc::new), Value::Tuple)
+    delimited(char('('), body,ws(char(')')))
 });
 
 rule!(value -> Value, {
@@ -309,11 +311,7 @@ rule!(value -> Value, {
 });
 
 rule!(op_value -> Value, {
-    alt((
-        delimited(char('('), ws(op_0), ws(char(')'))),
-        delimited(char('('), ws(value), ws(char(')'))),
-        value,
-    ))
+    value
 });
 
 rule!(op_index -> (Span<'a>,Vec<Value>), {
